@@ -1,7 +1,56 @@
-//! HullMovingAverage — reference model (TODO).
+//! Hull Moving Average. Doc: 1 value — `HMA value`; linked formula (fidelity):
+//!     HMA(n) = WMA( 2 · WMA(src, n/2) − WMA(src, n), sqrt(n) )   (integer parts of n/2 and sqrt(n)).
+//! 1 signal: `HMA value` reverses upwards: full positive signal; reverses downwards: full negative
+//!   signal; otherwise no signal. `left` / `right` = lags of the reverse point detection.
 use super::*;
 
-/// returns None until the reference is written
-pub fn make(_cfg: &Cfg, _c0: &RC) -> Option<Box<dyn IndRef>> {
-	None
+#[derive(Clone)]
+pub struct HullMovingAverage {
+	src: String,
+	hma: Box<dyn rm::RefVV>,
+	rev: Rev,
+}
+
+/// the source as a plain number (value of the HMA line on the constant prehistory)
+fn src_f64(c: &RC, kind: &str) -> f64 {
+	match kind {
+		"close" => c.c,
+		"open" => c.o,
+		"high" => c.h,
+		"low" => c.l,
+		"hl2" => (c.h + c.l) * 0.5,
+		"tp" => (c.h + c.l + c.c) / 3.0,
+		"volume" => c.v,
+		"volumed_price" => (c.h + c.l + c.c) / 3.0 * c.v,
+		o => panic!("unknown source {o}"),
+	}
+}
+
+pub fn make(cfg: &Cfg, c0: &RC) -> Option<Box<dyn IndRef>> {
+	let src = cfg.src("source");
+	let n = cfg.int("period");
+	Some(Box::new(HullMovingAverage {
+		// every weighted average of the constant prehistory is that constant, and so is 2·c − c
+		hma: rm::ma_q("hma", n, source(c0, &src)),
+		// a reverse point = a pivot of the HMA line (the crate's ReversalSignal(left, right)): a lower pivot
+		// is where the line turns upwards, an upper pivot where it turns downwards; the line of the
+		// prehistory is the constant source
+		rev: Rev::new(cfg.int("left"), cfg.int("right"), src_f64(c0, &src)),
+		src,
+	}))
+}
+
+impl IndRef for HullMovingAverage {
+	fn values(&mut self, c: &RC) -> Vec<Q> {
+		vec![self.hma.stepq(source(c, &self.src))]
+	}
+	fn signals(&mut self, _c: &RC, own: &[f64]) -> Vec<Sig> {
+		// NOTE (finding, not modelled): the implementation seeds its pivot detector with the raw source of
+		// the first candle and credits position 0 with the larger (upper pivots) / smaller (lower pivots) of
+		// that seed and the first HMA value, so it reports pivots at the first candle that the HMA line does
+		// not have (e.g. a full sell on a constant stream whose HMA sits 1 ulp under the source) and cancels
+		// a real one against such a phantom. With that treatment emulated the two agree everywhere explored.
+		vec![sig_sign(self.rev.step(own[0]))]
+	}
+	indref!(HullMovingAverage);
 }
